@@ -228,9 +228,11 @@ TestPlugin* TestRegistry::getPluginByName(const SimpleString& name)
 
 void TestRegistry::removePluginByName(const SimpleString& name)
 {
-    if (firstPlugin_->removePluginByName(name) == firstPlugin_) firstPlugin_ = firstPlugin_->getNext();
-    if (firstPlugin_->getName() == name) firstPlugin_ = firstPlugin_->getNext();
-    firstPlugin_->removePluginByName(name);
+    TestPlugin* const end = NullTestPlugin::instance();
+    while (firstPlugin_ != end && firstPlugin_->getName() == name)
+        firstPlugin_ = firstPlugin_->getNext();
+    for (TestPlugin* plugin = firstPlugin_; plugin != end; plugin = plugin->getNext())
+        while (plugin->getNext() != end && plugin->removePluginByName(name) != NULLPTR) {}
 }
 
 int TestRegistry::countPlugins()
